@@ -279,6 +279,7 @@ func (m *Module) EmitBinOp(x, y Value, op wat.OpCode) (insts []wat.Inst, ret_typ
 		} else {
 			logger.Fatal("Unreachable")
 		}
+		insts = m.emitShiftCountGuard(x, y, insts, false)
 
 		if ret_type.Equal(m.U8) {
 			insts = append(insts, wat.NewInstConst(wat.I32{}, "255"))
@@ -308,6 +309,7 @@ func (m *Module) EmitBinOp(x, y Value, op wat.OpCode) (insts []wat.Inst, ret_typ
 		} else {
 			logger.Fatal("Unreachable")
 		}
+		insts = m.emitShiftCountGuard(x, y, insts, true)
 
 	case wat.OpCodeAndNot:
 		ret_type = x.Type()
@@ -321,6 +323,46 @@ func (m *Module) EmitBinOp(x, y Value, op wat.OpCode) (insts []wat.Inst, ret_typ
 		logger.Fatal("Todo")
 	}
 
+	return
+}
+
+// 移位位数大于等于操作数位宽时, 结果为 0 (有符号右移为符号位填充), 而 wasm 指令对位数取模
+func (m *Module) emitShiftCountGuard(x, y Value, shift []wat.Inst, shr bool) (insts []wat.Inst) {
+	x_type := toWatType(x.Type())
+
+	var width int
+	switch x_type.(type) {
+	case wat.I32, wat.U32:
+		width = 32
+	case wat.I64, wat.U64:
+		width = 64
+	default:
+		return shift
+	}
+
+	var over []wat.Inst
+	signed := false
+	switch x_type.(type) {
+	case wat.I32, wat.I64:
+		signed = true
+	}
+	if shr && signed {
+		over = append(over, x.EmitPushNoRetain()...)
+		over = append(over, wat.NewInstConst(x_type, strconv.Itoa(width-1)))
+		over = append(over, wat.NewInstShr(x_type))
+	} else {
+		over = append(over, wat.NewInstConst(x_type, "0"))
+	}
+
+	insts = append(insts, y.EmitPushNoRetain()...)
+	if y.Type().Size() == 8 {
+		insts = append(insts, wat.NewInstConst(wat.I64{}, strconv.Itoa(width)))
+		insts = append(insts, wat.NewInstLt(wat.U64{}))
+	} else {
+		insts = append(insts, wat.NewInstConst(wat.I32{}, strconv.Itoa(width)))
+		insts = append(insts, wat.NewInstLt(wat.U32{}))
+	}
+	insts = append(insts, wat.NewInstIf(shift, over, []wat.ValueType{x_type}))
 	return
 }
 
